@@ -75,6 +75,16 @@ def SPFD (fd : FuncDef) : Prop := ∀ (last : Option UInt8) (stk : List Nat) (fo
   · split <;> rfl
 @[simp] theorem stops_ident_colon (n : Bytes) (r : Bytes) : stops (.ident n) (58 :: 32 :: r) = true := rfl
 
+@[simp] theorem stops_kw_32 (w : Kw) (r : Bytes) : stops (.kw w) (32 :: r) = true := stops_kw_s w 32 r rfl
+@[simp] theorem stops_var_32 (s : Bytes) (r : Bytes) : stops (.var s) (32 :: r) = true := stops_var_s s 32 r rfl
+@[simp] theorem stops_format_32 (s : Bytes) (r : Bytes) : stops (.format s) (32 :: r) = true := stops_format_s s 32 r rfl
+@[simp] theorem stops_op_32 (o : BOp) (r : Bytes) : stops (.op o) (32 :: r) = true := stops_op_s o 32 r rfl
+@[simp] theorem stops_ident_40 (s : Bytes) (r : Bytes) : stops (.ident s) (40 :: r) = true := stops_ident_s s 40 r rfl
+@[simp] theorem stops_nameTok_40 (n : Bytes) (r : Bytes) : stops (nameTok n) (40 :: r) = true := stops_nameTok_s n 40 r rfl
+@[simp] theorem stops_keyTok_59 (n : Bytes) (r : Bytes) : stops (keyTok n) (59 :: r) = true := stops_keyTok_s n 59 r rfl
+@[simp] theorem stops_keyTok_41 (n : Bytes) (r : Bytes) : stops (keyTok n) (41 :: r) = true := stops_keyTok_s n 41 r rfl
+@[simp] theorem stops_keyTok_32 (n : Bytes) (r : Bytes) : stops (keyTok n) (32 :: r) = true := stops_keyTok_s n 32 r rfl
+
 @[simp] theorem inStrTok_nameTok (n : Bytes) : (nameTok n).inStrTok = false := by
   unfold nameTok; split <;> split <;> rfl
 @[simp] theorem inStrTok_keyTok (n : Bytes) : (keyTok n).inStrTok = false := by
